@@ -470,6 +470,11 @@ pub fn gen_history(t: &mut Tape, big_per_mille: u32) -> History {
                 }
                 Op::Payloads { vs, native }
             }
+            4 if t.chance(1, 6) => {
+                // an SSL container TLV of exactly its five fixed bytes followed directly by a TLV of one of its sub-types
+                ops.push(Op::WriteTlv { kind: 0x20, len: *t.pick(&[5usize, 5, 5, 4, 6, 0]), seed: gen_seed(t) });
+                Op::WriteTlv { kind: 0x21 + t.below(5) as u8, len: t.usize_in(0, 12), seed: gen_seed(t) }
+            }
             4 => Op::WriteTlv { kind: gen_kind(t), len: gen_len(t, big_per_mille), seed: gen_seed(t) },
             _ => Op::WriteTlvType { ty: t.below(12) as usize, len: gen_len(t, big_per_mille), seed: gen_seed(t) },
         };
